@@ -38,6 +38,7 @@ import (
 	"os"
 	"path"
 	"sort"
+	"path/filepath"
 	"strings"
 	"sync"
 	"sync/atomic"
@@ -446,7 +447,15 @@ type Case struct {
 	// poll (Err or Done) on - it ends while the store is being read. Failing is then legal; a
 	// success must still be the complete set
 	CtxPolls int `json:"ctxPolls,omitempty"`
+	// Root: name of the configuration root directory itself ("" = a plain temporary directory). A
+	// root whose name holds pattern characters has a neighbour that the name, read as a pattern,
+	// designates as well; the neighbour holds a valid root certificate at the store's place:
+	// "nothing from anywhere else"
+	Root string `json:"root,omitempty"`
 }
+
+// rootNeighbour: directory names with pattern characters -> a neighbour the pattern also matches
+var rootNeighbour = map[string]string{"cfg[1]": "cfg1", "notation*": "notation-staging", "c?g": "cfg", "cf\\g": "cfg", "[c]fg": "cfg"}
 
 // pollCtx is a context whose deadline passes after a number of polls.
 type pollCtx struct {
@@ -676,6 +685,19 @@ func check(c *Case, v verdict) (key, msg string, succeeded bool) {
 		return "harness:mkdtemp", err.Error(), false
 	}
 	defer os.RemoveAll(base)
+	if c.Root != "" {
+		outer := base
+		base = filepath.Join(outer, c.Root)
+		if err := os.MkdirAll(base, 0o755); err != nil {
+			return "harness:mkroot", err.Error(), false
+		}
+		if c.Type != "" && c.Name != "" && !strings.ContainsAny(c.Type+c.Name, "/\\") && c.Type != "." && c.Type != ".." && c.Name != "." && c.Name != ".." && len(c.Name) < 200 && len(c.Type) < 200 {
+			d := filepath.Join(outer, rootNeighbour[c.Root], "truststore", "x509", c.Type, c.Name)
+			if err := os.MkdirAll(d, 0o755); err == nil {
+				os.WriteFile(filepath.Join(d, "neighbour.pem"), pemOf(p.decoys[len(p.decoys)-1:]), 0o644)
+			}
+		}
+	}
 	var certs []*x509.Certificate
 	var pan any
 	var ctx context.Context = context.Background()
@@ -815,7 +837,7 @@ func (c *Case) view() any {
 }
 
 func (c *Case) fingerprint() uint64 {
-	parts := []any{c.Type, c.Name, c.Reuse, c.CtxPolls}
+	parts := []any{c.Type, c.Name, c.Reuse, c.CtxPolls, c.Root}
 	for _, n := range c.Nodes {
 		parts = append(parts, n.Path, n.Kind, n.What, n.Var, strings.Join(n.Certs, ","), n.Target)
 	}
@@ -844,6 +866,9 @@ func classesOf(c *Case, v verdict, succeeded bool) ([]string, bool) {
 	}
 	if c.Reuse {
 		cl = append(cl, "reused-store-value")
+	}
+	if c.Root != "" {
+		cl = append(cl, "root-name-with-pattern-characters")
 	}
 	if v.Reason != "" {
 		cl = append(cl, "reason="+v.Reason)
